@@ -8,132 +8,11 @@
   C13-zipped-completed-lists-subdirectories); with the proposed repair (top-level entries only) it holds unconditionally
   (`zipped_completed_top_eq_directory`).
 -/
-import CogentModel.Model.DataStoreZip
+import CogentModel.Proofs.DataStoreZip
 namespace CogentModel.C13
 open CogentModel CogentModel.KV CogentModel.DataStore CogentModel.DataStoreZip
 
-/-- a file name: non-empty, no '/' -/
-abbrev plainName (n : Str) : Prop := n ≠ [] ∧ ∀ c ∈ n, c ≠ '/'
-
-theorem takeWhile_app {p : Char → Bool} (l r : Str) (c : Char) (hl : ∀ x ∈ l, p x = true) (hc : p c = false) :
-    (l ++ c :: r).takeWhile p = l := by
-  induction l with
-  | nil => simp [hc]
-  | cons a t ih =>
-    have ha := hl a (by simp)
-    simp [ha]
-    exact ih (fun x hx => hl x (by simp [hx]))
-
-theorem dropWhile_app {p : Char → Bool} (l r : Str) (c : Char) (hl : ∀ x ∈ l, p x = true) (hc : p c = false) :
-    (l ++ c :: r).dropWhile p = c :: r := by
-  induction l with
-  | nil => simp [hc]
-  | cons a t ih =>
-    have ha := hl a (by simp)
-    simp [ha]
-    exact ih (fun x hx => hl x (by simp [hx]))
-
-theorem pathName_join (x n : Str) (hn : plainName n) : pathName (x ++ '/' :: n) = n := by
-  unfold pathName
-  have : (x ++ '/' :: n).reverse = n.reverse ++ '/' :: x.reverse := by simp
-  rw [this, takeWhile_app]
-  · simp
-  · intro c hc; simp at hc; simpa using hn.2 c hc
-  · simp
-
-theorem stripSlash_join (x n : Str) (hn : plainName n) : stripSlash (x ++ '/' :: n) = x ++ '/' :: n := by
-  unfold stripSlash
-  obtain ⟨hne, hs⟩ := hn
-  have hl : (x ++ '/' :: n).getLast? = n.getLast? := by
-    cases n with
-    | nil => exact absurd rfl hne
-    | cons a t =>
-      rw [show x ++ '/' :: a :: t = (x ++ ['/']) ++ (a :: t) by simp, List.getLast?_append]
-      cases h : (a :: t).getLast? with
-      | none => simp at h
-      | some v => simp
-  rw [hl]
-  have : n.getLast? ≠ some '/' := by
-    intro h
-    exact hs '/' (List.mem_of_getLast? h) rfl
-  simp [this]
-
-theorem parentName_join (x n : Str) (hn : plainName n) : parentName (x ++ '/' :: n) = pathName x := by
-  unfold parentName
-  rw [stripSlash_join x n hn]
-  have : (x ++ '/' :: n).reverse = n.reverse ++ '/' :: x.reverse := by simp
-  rw [this, dropWhile_app]
-  · simp
-  · intro c hc; simp at hc; simpa using hn.2 c hc
-  · simp
-
-theorem pathName_plain (n : Str) (hn : ∀ c ∈ n, c ≠ '/') : pathName n = n := by
-  unfold pathName
-  have h : ∀ l : Str, (∀ c ∈ l, c ≠ '/') → l.takeWhile (· != '/') = l := by
-    intro l hl
-    induction l with
-    | nil => rfl
-    | cons a t ih =>
-      have ha : (a != '/') = true := by simpa using hl a (by simp)
-      simp [ha]
-      exact ih (fun c hc => hl c (by simp [hc]))
-  rw [h n.reverse (by intro c hc; simp at hc; exact hn c hc)]
-  simp
-
-theorem filter_map_keep {α : Type} (l : List Str) (f : Str → Str) (p : Str → Bool) (q : Str → Bool) (g : Str → α) (g' : Str → α)
-    (h : ∀ n ∈ l, p (f n) = q n ∧ g (f n) = g' n) : ((l.map f).filter p).map g = (l.filter q).map g' := by
-  induction l with
-  | nil => rfl
-  | cons a t ih =>
-    have ha := h a (by simp)
-    have it := ih (fun n hn => h n (by simp [hn]))
-    simp only [List.map_cons, List.filter_cons, ha.1]
-    by_cases hq : q a = true
-    · simp only [hq, if_true, List.map_cons, ha.2, it]
-    · have hq' : q a = false := by simpa using hq
-      simp [hq', it]
-
-theorem filter_map_none (l : List Str) (f : Str → Str) (p : Str → Bool)
-    (h : ∀ n ∈ l, p (f n) = false) : (l.map f).filter p = [] := by
-  induction l with
-  | nil => rfl
-  | cons a t ih =>
-    simp only [List.map_cons, List.filter_cons, h a (by simp)]
-    exact ih (fun n hn => h n (by simp [hn]))
-
 variable {D : Type}
-
-/-- the directory is one a store produces: plain file names (no '/', non-empty), no dot-files among the records, and the
-    zip's top directory is not named like one of the store's sub-directories -/
-structure ZipOk (top : Str) (s : Dir D) : Prop where
-  top_plain : plainName top
-  top_nc : top ≠ sNotCompleted
-  top_logs : top ≠ sLogs
-  top_md5 : top ≠ sMd5
-  root : ∀ n ∈ keys s.root, plainName n ∧ startsWith n ['.'] = false
-  nc : ∀ n ∈ keys s.nc, plainName n ∧ startsWith n ['.'] = false
-  logs : ∀ n ∈ keys s.logs, plainName n ∧ startsWith n ['.'] = false
-  md5 : ∀ n ∈ keys s.md5, plainName n
-
-theorem plain_nc : plainName sNotCompleted := by
-  refine ⟨by decide, ?_⟩; intro c hc; revert c; decide
-theorem plain_logs : plainName sLogs := by
-  refine ⟨by decide, ?_⟩; intro c hc; revert c; decide
-theorem plain_md5 : plainName sMd5 := by
-  refine ⟨by decide, ?_⟩; intro c hc; revert c; decide
-
-theorem glob_star (rest x n : Str) (hn : plainName n) :
-    globMatch ('*' :: rest) (x ++ '/' :: n) = endsWith n rest := by
-  simp only [globMatch, stripSlash_join x n hn, pathName_join x n hn]
-  have : n.isEmpty = false := by cases n with | nil => exact absurd rfl hn.1 | cons _ _ => rfl
-  simp [this]
-
-theorem parent_sub (top sub n : Str) (hs : plainName sub) (hn : plainName n) :
-    parentName (top ++ '/' :: sub ++ '/' :: n) = sub := by
-  rw [parentName_join _ n hn, pathName_join top sub hs]
-
-theorem parent_top (top n : Str) (ht : plainName top) (hn : plainName n) : parentName (top ++ '/' :: n) = top := by
-  rw [parentName_join _ n hn, pathName_plain top ht.2]
 
 theorem zipped_completed_top_eq_directory (top : Str) (s : Dir D) (ok : ZipOk top s) :
     zCompletedTop top s.sfx (zipNames top s) = globC s := by
